@@ -452,6 +452,54 @@ def check(case, ctx):
         if st_a != st_b or (st_a == 'ok' and ra != rb):
             ctx.fail('wrapper-on-shared-annotation', rb, ra, op=name, text=s)
             break
+    # ---- one parsed object that has answered queries (residue counts, mass, composition, text) is reordered / cut: the
+    # result answers the same queries like a freshly parsed copy of its own text (nothing remembered from the source)
+    def answers(x):
+        return (lib.call(lambda: sorted(x.count_residues().items())), lib.call(lambda: round(p.mass(x), 6)),
+                lib.call(lambda: len(x)), lib.call(lambda: x.count_modified_residues()))
+
+    ops = [('reverse', lambda a: a.reverse()), ('sort', lambda a: a.sort_residues()), ('shuffle', lambda a: a.shuffle(seed=2))]
+    if not has_iv:
+        ops.append(('shift', lambda a: a.shift(1)))
+    ops += [(f'slice({i},{j})', (lambda a, i=i, j=j: a.slice(i, j))) for i, j in ((0, n - 1), (1, n), (1, n - 1))
+            if 0 <= i < j <= n and not cuts_inside(P, i, j)]
+    for name, op in ops:
+        for inplace in (False, True):
+            a = p.parse(s)
+            answers(a)
+            lib.call(a.serialize)
+            lib.call(p.comp_mass, a)
+            if inplace:
+                opn = name.split('(')[0]
+                kw = {'inplace': True}
+                if opn == 'reverse':
+                    st_r, _ = lib.call(lambda: a.reverse(inplace=True))
+                elif opn == 'sort':
+                    st_r, _ = lib.call(lambda: a.sort_residues(inplace=True))
+                elif opn == 'shuffle':
+                    st_r, _ = lib.call(lambda: a.shuffle(seed=2, inplace=True))
+                elif opn == 'shift':
+                    st_r, _ = lib.call(lambda: a.shift(1, inplace=True))
+                else:
+                    i, j = [int(x) for x in name[6:-1].split(',')]
+                    st_r, _ = lib.call(lambda: a.slice(i, j, inplace=True))
+                r = a
+            else:
+                st_r, r = lib.call(op, a)
+            ctx.evals += 3
+            nops += 1
+            if st_r != 'ok':
+                continue       # reported by the clauses above
+            st_t, text = lib.call(r.serialize)
+            st_f, fresh = lib.call(p.parse, text) if st_t == 'ok' else ('err', None)
+            if st_f != 'ok':
+                continue
+            got, want = answers(r), answers(fresh)
+            if got != want:
+                ctx.fail('result-after-queries', [str(w[1])[:200] for w in want], [str(g[1])[:200] for g in got], op=name,
+                         inplace=inplace, text=s, result=text,
+                         note='count_residues / mass / len / count_modified_residues were asked of the source object first')
+                break
     ctx.sub_states = nops
     ctx.sub_nontrivial = nops
     ctx.outcome = s
